@@ -861,6 +861,15 @@ def play(world, ops, by):
                         LOG("rejected-runner-shut-down", by=by, gen=world.gen)
                     except BaseException as err:  # noqa: B036
                         LOG("raised", op="shutdown-of-rejected-runner", by=by, gen=world.gen, exc=type(err).__name__, msg=text_of(err)[:200])
+            elif kind == "adopt_stream":
+                # an outside thread that keeps adopting short-lived payloads (op: flavour, pause) until the run call has ended
+                n = 0
+                while not world.accept_done.is_set() and n < 3000:
+                    cid = "%s.s%d" % (by.replace("/", "_"), n)
+                    world.payloads[cid] = {"id": cid, "flavour": op[1], "program": [], "cleanup": {"kind": "none"}}
+                    do_adopt(world, cid, by)
+                    n += 1
+                    time.sleep(op[2])
             elif kind == "rival_runtime":
                 # a second, independent runtime in the same process: a bare MetaRunner, which no accept guard covers
                 from cobald.daemon.runners.meta_runner import MetaRunner
